@@ -10,6 +10,7 @@ import (
 	"fmt"
 	"github.com/shutter-network/rolling-shutter/rolling-shutter/shmsg"
 	"os"
+	"time"
 
 	"github.com/shutter-network/rolling-shutter/rolling-shutter/app"
 
@@ -74,7 +75,7 @@ func main() {
 			agg.Require("validator_updates_nonempty", 1)
 			agg.Require("bfs_states", 10)
 		},
-		CaseTimeout: 0,
+		CaseTimeout: 20 * time.Minute,
 	}
 	vlib.Main(chk)
 }
